@@ -215,7 +215,7 @@ def state_sets(n, sizes=(1, 2, 3), orders=("inc", "dec"), stride3=1):
                 continue
             if "inc" in orders:
                 out.append(list(combo))
-            if "dec" in orders and m > 1:
+            if "dec" in orders and (m > 1 or "inc" not in orders):
                 out.append(list(reversed(combo)))
             if "all" in orders:
                 for p in itertools.permutations(combo):
